@@ -29,6 +29,26 @@ var abDFB = [][2]string{
 	{"BURN", "k.fiattokenfactory.Burn(ctx,&ftf.MsgBurn{From:MODADDR,Amount:COIN})"},
 }
 
+// abDFBl: as abDFB, but calls whose arguments are C05/C06's business are abbreviated with a
+// balanced wildcard so that C08's guards (`… returned nil`) do not depend on them.
+var abDFBl = [][2]string{
+	{"ACC", "sdk.AccAddressFromBech32(p2)"},
+	{"TM", "k.GetRemoteTokenMessenger(ctx,p4)"},
+	{"LIMIT", "k.GetPerMessageBurnLimit(ctx,strings.ToLower(p6))"},
+	{"DENOM", "k.fiattokenfactory.GetMintingDenom(ctx).Denom"},
+	{"DEBIT", "k.bank.SendCoinsFromAccountToModule(§)"},
+	{"BURN", "k.fiattokenfactory.Burn(§)"},
+	{"BODY", "(*types.BurnMessage).Bytes(§)"},
+	{"SMC", "k.SendMessageWithCaller(§)"},
+	{"SM", "k.SendMessage(§)"},
+}
+
+var abSMl = [][2]string{
+	{"MSGBYTES", "(*types.Message).Bytes(§)"},
+	{"MAX", "k.GetMaxMessageBodySize(ctx)"},
+	{"EMIT", "(sdk.Context).EventManager(ctx).EmitTypedEvent(§)"},
+}
+
 // abbreviations shared by the handlers whose request is p2
 var abFrom = [][2]string{
 	{"ACC", "sdk.AccAddressFromBech32(p2.From)"},
@@ -38,18 +58,17 @@ var abFrom = [][2]string{
 }
 
 var abRPM = [][2]string{
-	{"MP", "(*types.Message).Parse(&types.Message{},p2.OriginalMessage)"},
+	{"MP", "(*types.Message).Parse(§)"},
 	{"M", "MP#0"},
-	{"BP", "(*types.BurnMessage).Parse(&types.BurnMessage{},M.MessageBody)"},
+	{"BP", "(*types.BurnMessage).Parse(§)"},
 	{"B", "BP#0"},
 	{"ACC", "sdk.AccAddressFromBech32(p2.From)"},
 	{"SENDER32", "buf(32){[12:]=ACC#0}"},
-	{"VAS", "keeper.VerifyAttestationSignatures(p2.OriginalMessage,p2.OriginalAttestation,k.GetAllAttesters(ctx),k.GetSignatureThreshold(ctx)#0.Amount)"},
+	{"VAS", "keeper.VerifyAttestationSignatures(§)"},
 	{"MODADDR", "(sdk.AccAddress).String(types.ModuleAddress)"},
 	{"NEWBM", "&types.BurnMessage{Version:B.Version,BurnToken:B.BurnToken,MintRecipient:p2.NewMintRecipient,Amount:B.Amount,MessageSender:B.MessageSender}"},
-	{"NEWBODY", "(*types.BurnMessage).Bytes(NEWBM)"},
-	{"RPMREQ", "&types.MsgReplaceMessage{From:MODADDR,OriginalMessage:p2.OriginalMessage,OriginalAttestation:p2.OriginalAttestation,NewMessageBody:NEWBODY#0,NewDestinationCaller:p2.NewDestinationCaller}"},
-	{"RPM", "k.ReplaceMessage(ctx,RPMREQ)"},
+	{"NEWBODY", "(*types.BurnMessage).Bytes(§)"},
+	{"RPM", "k.ReplaceMessage(§)"},
 	{"SMSG", "k.sendMessage(ctx,M.DestinationDomain,M.Recipient,p2.NewDestinationCaller,M.Sender,M.Nonce,p2.NewMessageBody)"},
 }
 
@@ -127,7 +146,7 @@ func runC08(p *Prog, r *Report, tier string) {
 	foundGetterContract(p, r, "GetMaxMessageBodySize", "MaxMessageBodySize/value/", `[]byte("MaxMessageBodySize/value/")`, "types.MaxMessageBodySize{}")
 	foundGetterContract(p, r, "GetRemoteTokenMessenger", "RemoteTokenMessenger/value/", "types.RemoteTokenMessengerKey(p2)", "types.RemoteTokenMessenger{}")
 
-	if c := p.fc(r, p.Func("keeper.msgServer.depositForBurn"), "depositForBurn", abDFB); c != nil {
+	if c := p.fc(r, p.Func("keeper.msgServer.depositForBurn"), "depositForBurn", abDFBl); c != nil {
 		debit := c.instrs(c.calls("k.bank.SendCoinsFromAccountToModule"))
 		burn := c.instrs(c.calls("k.fiattokenfactory.Burn"))
 		sm := c.instrs(c.calls("k.SendMessage"))
@@ -190,7 +209,7 @@ func runC08(p *Prog, r *Report, tier string) {
 		rejects := applyRows(c, []guardRow{{"from-valid", []Atom{A("(nil == ACC#1)")}, all}})
 		c.exact("G-exact", rejects)
 	}
-	if c := p.fc(r, p.Func("keeper.msgServer.sendMessage"), "sendMessage", abSM); c != nil {
+	if c := p.fc(r, p.Func("keeper.msgServer.sendMessage"), "sendMessage", abSMl); c != nil {
 		ev := c.instrs(emitCalls(c))
 		all := union(ev, c.successReturns())
 		c.requireCut("G-cut", "send-not-paused", notPaused(flagSR), all)
@@ -224,7 +243,7 @@ func runC08(p *Prog, r *Report, tier string) {
 			c.teq("K-agree", "key-shape", c.term(ret.Results[0], ret), `append([]byte(p0),[]byte("/"))`, p.instrPos(ret))
 		}
 	}
-	if c := p.fc(r, p.Func("keeper.msgServer.depositForBurn"), "depositForBurn", abDFB); c != nil {
+	if c := p.fc(r, p.Func("keeper.msgServer.depositForBurn"), "depositForBurn", abDFBl); c != nil {
 		if call := c.oneCall("K-agree", "k.GetPerMessageBurnLimit"); call != nil {
 			c.teq("K-agree", "limit-lookup-key", c.args(call)[1], "strings.ToLower(p6)", p.instrPos(call))
 		}
@@ -676,6 +695,9 @@ func runC09(p *Prog, r *Report, tier string) {
 				"Version": "B.Version", "BurnToken": "B.BurnToken", "MintRecipient": "p2.NewMintRecipient", "Amount": "B.Amount", "MessageSender": "B.MessageSender"}, p.instrPos(bc))
 		}
 		c.ab = abRPM[:10]
+		if bp := c.oneCall("T-eq", "(*types.BurnMessage).Parse"); bp != nil {
+			c.teq("T-eq", "parsed-body", c.args(bp)[1], "M.MessageBody", p.instrPos(bp))
+		}
 		if rc := c.oneCall("T-eq", "k.ReplaceMessage"); rc != nil {
 			c.checkLit("T-eq", "inner-replace", c.argTerms(rc)[1], "types.MsgReplaceMessage", map[string]string{
 				"From": "MODADDR", "OriginalMessage": "p2.OriginalMessage", "OriginalAttestation": "p2.OriginalAttestation", "NewMessageBody": "NEWBODY#0", "NewDestinationCaller": "p2.NewDestinationCaller"}, p.instrPos(rc))
